@@ -767,3 +767,55 @@ Lemma witness2_facts :
   run w2_params init_state w2_ops = [[]; []; [[]; []]; []; [[]]; [[88; 89; 90]]] /\
   transparent_from [] w2_ops (run w2_params init_state w2_ops) = true.
 Proof. vm_compute. repeat split; reflexivity. Qed.
+
+(* ---------- rotation: Reset empties the volume AND its index ---------- *)
+(* doReset truncates .dat and .idx and removes the leveldb; the reload regenerates
+   the map from the emptied .idx: nothing of the old contents is left *)
+Lemma reset_seg_spec : forall s,
+  reset_seg s = {| sg_id := sg_id s; sg_size := 0; sg_recs := [] |}.
+Proof. reflexivity. Qed.
+
+Lemma reset_forgets : forall s k, seg_get (reset_seg s) k = None.
+Proof. reflexivity. Qed.
+
+(* the volume a rotation moved to the front answers for the key just written and
+   for no other key, whatever it held before (evicted needles are gone for good,
+   also after the volume is filled again: [seg_get] only sees records written
+   after the reset) *)
+Lemma rotation_front_only_new : forall limit front rest key d k,
+  (limit <? sg_size front + blen d) = true -> k <> key ->
+  match layer_set limit (front :: rest) key d with
+  | s :: _ => seg_get s k = None /\ seg_get s key = Some d /\ sg_size s = pad8 (blen d)
+  | [] => False
+  end.
+Proof.
+  intros limit front rest key d k Hfull Hk.
+  unfold layer_set. rewrite Hfull.
+  rewrite reset_seg_spec. unfold write_seg, seg_get. cbn [sg_recs sg_size sg_id seg_find r_key r_valid r_data].
+  rewrite N.eqb_refl.
+  destruct (key =? k) eqn:E; [apply N.eqb_eq in E; congruence|].
+  repeat split.
+Qed.
+
+(* a full rotation cycle of the middle tier and beyond.  NewTieredChunkCache(_, dir,
+   32, 8): three segments of 32 bytes; ten ids with 9-byte chunks (16 bytes padded,
+   two per segment) are stored, every id ever stored is looked up after every store:
+   the four evicted ids miss (the reset volumes 0 and 1 have been filled again: the
+   offset of id 2 is covered by id 8's needle), the six ids the three segments hold
+   hit with their own bytes, and every admitted answer of the history is transparent *)
+Definition rot_params : params := {| unit_size := 8; disk_units := 32 |}.
+Definition rot_fid (i : nat) : fileid := Fid 3 (N.of_nat i) 2864434397.
+Definition rot_data (i : nat) : bytes := repeat (N.of_nat (64 + i)) 9.
+Fixpoint rot_ops (n : nat) : list op :=
+  match n with
+  | O => []
+  | S n' => rot_ops n' ++ Store (rot_fid n) (rot_data n) :: map (fun i => Get (rot_fid i) 9) (seq 1 n)
+  end.
+
+Lemma rotation_witness_facts :
+  keys_unique (rot_ops 10) = true /\ hist_ok (rot_ops 10) = true /\
+  transparent_from [] (rot_ops 10) (run rot_params init_state (rot_ops 10)) = true /\
+  skipn 55 (run rot_params init_state (rot_ops 10)) =
+    [[[]]; [[]]; [[]]; [[]]; [rot_data 5]; [rot_data 6];
+     [rot_data 7]; [rot_data 8]; [rot_data 9]; [rot_data 10]].
+Proof. vm_compute. repeat split; reflexivity. Qed.
